@@ -7,6 +7,8 @@ Protocol (arguments that are texts are hex-encoded UTF-8, `-` = empty):
   new                     fresh runtime
   set0 H | self0 ($0 = $0) | setf I H | setnf N | sub P R | gsub P R | ofs H | fs H | ofmt H | strip 0/1
   setnfv K H N | getlinenf H N | incnf | decnf | postinc | addnf K | refcall J | refcallnf
+  ofsv K H T | fsv K H T | ic 0/1 | convfmt H | setfnum I F T | mapto V | fsbad H | getlinef I H | apiself0
+  subf I P R | gsubf I P R
   getline H | getline (at EOF) | next H (main-loop record read) | read J | readnf
 The regular-expression matcher and the literal sub/gsub below exist only so that the driver
 can feed concrete values to the model; they are not part of any proof.
@@ -52,28 +54,31 @@ structure Item where
   pred : Char → Bool
   q : Quant
 
-partial def parseClass (neg : Bool) (acc : List (Char × Char)) : List Char → (Char → Bool) × List Char
-  | ']' :: r => ((fun c => (acc.any fun (a, b) => a ≤ c ∧ c ≤ b) != neg), r)
-  | a :: '-' :: b :: r => if b == ']' then parseClass neg ((a, a) :: ('-', '-') :: acc) (b :: r) else parseClass neg ((a, b) :: acc) r
-  | a :: r => parseClass neg ((a, a) :: acc) r
+partial def parseClass (ic neg : Bool) (acc : List (Char × Char)) : List Char → (Char → Bool) × List Char
+  | ']' :: r =>
+    let inSet := fun (c : Char) => acc.any fun (a, b) => a ≤ c ∧ c ≤ b
+    ((fun c => (inSet c || (ic && (inSet c.toUpper || inSet c.toLower))) != neg), r)
+  | a :: '-' :: b :: r => if b == ']' then parseClass ic neg ((a, a) :: ('-', '-') :: acc) (b :: r) else parseClass ic neg ((a, b) :: acc) r
+  | a :: r => parseClass ic neg ((a, a) :: acc) r
   | [] => ((fun _ => false), [])
 
-partial def parseRe : List Char → List Item
+partial def parseRe (ic : Bool) : List Char → List Item
   | [] => []
   | l =>
+    let lit := fun (c : Char) => fun (x : Char) => if ic then x.toLower == c.toLower else x == c
     let (pred, rest) : (Char → Bool) × List Char :=
       match l with
-      | '[' :: '^' :: r => parseClass true [] r
-      | '[' :: r => parseClass false [] r
-      | '\\' :: c :: r => ((fun x => x == c), r)
+      | '[' :: '^' :: r => parseClass ic true [] r
+      | '[' :: r => parseClass ic false [] r
+      | '\\' :: c :: r => (lit c, r)
       | '.' :: r => ((fun _ => true), r)
-      | c :: r => ((fun x => x == c), r)
+      | c :: r => (lit c, r)
       | [] => ((fun _ => false), [])
     match rest with
-    | '+' :: r => { pred := pred, q := .plus } :: parseRe r
-    | '*' :: r => { pred := pred, q := .star } :: parseRe r
-    | '?' :: r => { pred := pred, q := .opt } :: parseRe r
-    | r => { pred := pred, q := .one } :: parseRe r
+    | '+' :: r => { pred := pred, q := .plus } :: parseRe ic r
+    | '*' :: r => { pred := pred, q := .star } :: parseRe ic r
+    | '?' :: r => { pred := pred, q := .opt } :: parseRe ic r
+    | r => { pred := pred, q := .one } :: parseRe ic r
 
 def dedup (l : List Nat) : List Nat := l.foldl (fun acc x => if acc.contains x then acc else acc ++ [x]) []
 
@@ -98,8 +103,8 @@ def matchAt (items : List Item) (s : Array Char) (p : Nat) : Option Nat :=
   ends.foldl (fun (b : Option Nat) e => match b with | none => some e | some x => some (max x e)) none
 
 /-- leftmost-longest match of `fs` in `line`, search starting at `from` -/
-def rexMatch : Matcher := fun fs line start =>
-  let items := parseRe fs
+def rexMatch : Matcher := fun ic fs line start =>
+  let items := parseRe ic fs
   let s := line.toArray
   let rec go (fuel : Nat) (p : Nat) : Option (Nat × Nat) :=
     match fuel with
@@ -146,7 +151,7 @@ def dump (st : St) : String :=
   let k := r.nf.toNat
   let v := String.join ((List.range (k + 1)).map fun i => "[" ++ esc (readVal r (i + 1)) ++ "]")
   let w := String.join ((List.range (k + 1)).map fun i => "[" ++ esc (readRef r (i + 1)) ++ "]")
-  s!"nf={r.nf} n={n} L={esc r.line} D={esc r.d0} F={F} R={R} B={B} ofs={esc st.e.ofsG}/{esc st.e.ofsC} Z={esc (readVal r 0)} v={v} r={w}"
+  s!"nf={r.nf} n={n} L={esc r.line} D={esc r.d0} F={F} R={R} B={B} ofs={esc st.e.ofs} Z={esc (readVal r 0)} v={v} r={w}"
 
 structure DSt where
   st : St := {}
@@ -161,6 +166,13 @@ def storeNF (d : DSt) (n : Int) (extra : String := "") : DSt × String :=
   if n < 0 then ({ d with dead := true }, "ERR einval " ++ dump st')
   else if growFails st.r n.toNat then ({ st := st', dead := true }, "ERR enomem " ++ dump st')
   else ok st' extra
+
+/-- sub/gsub on $0 with a literal pattern; `&` in the replacement stands for the matched text -/
+def doSub (d : DSt) (limit : Nat) (p r : String) : DSt × String :=
+  let st := d.st
+  let repl := (unhex r).flatMap fun c => if c == '&' then unhex p else [c]
+  let (res, cnt) := litSub (unhex p) repl limit st.r.line
+  if cnt > 0 then ok (Hawk.Rec.step rexMatch st (.rewrite res)) s!" c={cnt}" else ok st " c=0"
 
 def step (d : DSt) (line : String) : DSt × String :=
   let ws := words line
@@ -202,15 +214,34 @@ def step (d : DSt) (line : String) : DSt × String :=
     | some j => let st' := Hawk.Rec.step m st (.read j); ok st' s!" y={esc (readVal st'.r j ++ ['!'])}"
     | none => (d, "bad-op")
   | ["refcallnf"] => let st' := Hawk.Rec.step m st .readnf; ok st' s!" y={readNF st'.r}%21"
-  | [op, p, r] =>
-    if op == "sub" || op == "gsub" then
-      -- `&` in the replacement stands for the matched text (= the literal pattern)
-      let repl := (unhex r).flatMap fun c => if c == '&' then unhex p else [c]
-      let (res, cnt) := litSub (unhex p) repl (if op == "sub" then 1 else 0) st.r.line
-      if cnt > 0 then ok (Hawk.Rec.step m st (.rewrite res)) s!" c={cnt}" else ok st " c=0"
-    else (d, "bad-op")
+  | ["sub", p, r] => doSub d 1 p r
+  | ["gsub", p, r] => doSub d 0 p r
   | ["ofs", h] => ok (Hawk.Rec.step m st (.ofs (unhex h)))
-  | ["fs", h] => ok (Hawk.Rec.step m st (.fs (unhex h)))
+  | ["fs", h] => ok (Hawk.Rec.step m st (.fs (some (unhex h))))
+  -- OFS / FS = a value that is not a string (n nil, i integer, f float, b byte string, c character);
+  -- the last word is the string form of the value (conversion is not part of the record model)
+  | ["ofsv", _, _, t] => ok (Hawk.Rec.step m st (.ofs (unhex t)))
+  | ["fsv", k, _, t] => ok (Hawk.Rec.step m st (.fs (if k == "n" then none else some (unhex t))))
+  | ["ic", b] => ok (Hawk.Rec.step m st (.ic (b == "1")))
+  | ["convfmt", _] => ok st
+  | ["setfnum", i, _, t] => match i.toNat? with            -- $i = <float>; t = its string form under CONVFMT
+    | some i => ok (Hawk.Rec.step m st (.setf i (unhex t)))
+    | none => (d, "bad-op")
+  | ["mapto", _] => ({ d with dead := true }, "ERR enonsca " ++ dump st)   -- OFS/FS/NF = a map: refused
+  | ["fsbad", _] => ({ d with dead := true }, "ERR erex " ++ dump st)      -- FS = an invalid regular expression
+  | ["getlinef", i, h] => match i.toNat? with              -- getline $i
+    | some i => ok (Hawk.Rec.step m st (.setf i (unhex h))) " c=1"
+    | none => (d, "bad-op")
+  | ["apiself0"] => ok (Hawk.Rec.step m st (.set0 st.r.line))   -- hawk_rtx_setrec(rtx, 0, <inrec.line itself>)
+  | [op, i, p, r] =>
+    if op == "subf" || op == "gsubf" then                  -- sub/gsub(p, r, $i): through a positional reference
+      match i.toNat? with
+      | some i =>
+        let repl := (unhex r).flatMap fun c => if c == '&' then unhex p else [c]
+        let (res, cnt) := litSub (unhex p) repl (if op == "subf" then 1 else 0) (readVal st.r i)
+        if cnt > 0 then ok (Hawk.Rec.step m st (.setf i res)) s!" c={cnt}" else ok st " c=0"
+      | none => (d, "bad-op")
+    else (d, "bad-op")
   | ["ofmt", h] => ok (Hawk.Rec.step m st (.ofmt (unhex h)))
   | ["strip", b] => ok (Hawk.Rec.step m st (.strip (b == "1")))
   | ["getline", h] => ok (Hawk.Rec.step m st (.getline (unhex h))) " c=1"
